@@ -85,69 +85,75 @@ def distinct_z(s):
     return z3.ForAll([i], z3.Implies(z3.And(0 <= i, i < L(s)), ix(s, s[i]) == i))
 
 
-def _given(it, hyp, fact):
-    """hyp => fact; when hyp is literally one of the path's hypotheses, the fact itself (so that it
-    is available without quantifier reasoning)"""
-    h = z3.simplify(hyp)
-    if any(h.eq(p) for p in it.ctx.pc):
-        return fact
-    return z3.Implies(hyp, fact)
-
-
-def seq_op_hook(it, s, meth, old, args):
-    """element-wise consequences of a list/deque operation (new value s.z, old value `old`).
+def op_facts(meth, old, new, x=None, t=None, opaque=True):
+    """element-wise / first-index consequences of new = old.<meth>(...), as a list of (condition, fact):
+    `fact` holds whenever `condition` (None, or 'the elements of old are pairwise distinct') does.
     Pure facts of the theory of finite sequences; the sequence solvers do not derive them under
     quantifiers, so they are stated.  Validated against CPython lists by the `list-op-facts` task."""
-    if meth.startswith("pre:"):
-        if meth in ("pre:remove", "pre:index") and s.elem.kind == "opaque":
-            # the engine decides ValueError with the solver's own indexof: the same first index
-            x = to_z3(it.force(args[0]), s.elem)
-            it.ctx.assume(z3.IndexOf(old, z3.Unit(x), 0) == ix(old, x))
-        return
-    new = s.z
     j = z3.Int("j!op")
     es = new.sort().basis()
-    opaque = s.elem.kind == "opaque"
     y = z3.Const("y!op", es)
-    A = it.ctx.assume
     n = L(old)
-    if meth in ("popleft",) or (meth == "pop" and args and it.concrete(it.force(args[0])) == 0):
+    out = []
+    A = lambda f, cond=None: out.append((cond, f))   # noqa: E731
+    if meth == "popleft":
         A(L(new) == n - 1)
         A(z3.ForAll([j], z3.Implies(z3.And(0 <= j, j < n - 1), new[j] == old[j + 1])))
     elif meth == "extend":
-        t = to_z3(it.force(args[0]), T("seq", [s.elem]))
         A(L(new) == n + L(t))
         A(z3.ForAll([j], z3.Implies(z3.And(0 <= j, j < n), new[j] == old[j])))
         A(z3.ForAll([j], z3.Implies(z3.And(0 <= j, j < L(t)), new[n + j] == t[j])))
     elif meth == "clear":
         A(L(new) == 0)
     elif meth == "append" and opaque:
-        x = to_z3(it.force(args[0]), s.elem)
         A(z3.ForAll([y], ix(new, y) == z3.If(ix(old, y) >= 0, ix(old, y), z3.If(y == x, n, -1))))
-        for f in first_index_facts(new, es):
-            A(f)
     elif meth == "rotate" and opaque:
         h = old[0]
         A(L(new) == n)
         A(z3.Implies(n > 0, z3.And(
             new[n - 1] == h,
             z3.ForAll([j], z3.Implies(z3.And(0 <= j, j < n - 1), new[j] == old[j + 1])),
-            z3.ForAll([y], z3.Implies(y != h, ix(new, y) == z3.If(ix(old, y) < 0, -1, ix(old, y) - 1))),
-            _given(it, distinct_z(old), ix(new, h) == n - 1))))
-        for f in first_index_facts(new, es):
-            A(f)
+            z3.ForAll([y], z3.Implies(y != h, ix(new, y) == z3.If(ix(old, y) < 0, -1, ix(old, y) - 1))))))
+        A(z3.Implies(n > 0, ix(new, h) == n - 1), "distinct")
     elif meth == "remove" and opaque:
-        x = to_z3(it.force(args[0]), s.elem)
         k = ix(old, x)
-        A(k == z3.IndexOf(old, z3.Unit(x), 0))
         A(L(new) == n - 1)
         A(z3.ForAll([j], z3.Implies(z3.And(0 <= j, j < k), new[j] == old[j])))
         A(z3.ForAll([j], z3.Implies(z3.And(k <= j, j < n - 1), new[j] == old[j + 1])))
         A(z3.ForAll([y], z3.Implies(y != x, ix(new, y) == z3.If(ix(old, y) < 0, -1,
                                                                   z3.If(ix(old, y) < k, ix(old, y), ix(old, y) - 1)))))
-        A(_given(it, distinct_z(old), ix(new, x) == -1))
+        A(ix(new, x) == -1, "distinct")
+    if opaque and meth in ("append", "rotate", "remove"):
         for f in first_index_facts(new, es):
             A(f)
+    return out
+
+
+def seq_op_hook(it, s, meth, old, args):
+    """called by the engine around every list/deque operation on a symbolic sequence (see op_facts)"""
+    opaque = s.elem.kind == "opaque"
+    if meth.startswith("pre:"):
+        if meth in ("pre:remove", "pre:index") and opaque:
+            # the engine decides ValueError with the solver's own indexof: the same first index
+            x = to_z3(it.force(args[0]), s.elem)
+            it.ctx.assume(z3.IndexOf(old, z3.Unit(x), 0) == ix(old, x))
+        return
+    if meth == "pop" and args and it.concrete(it.force(args[0])) == 0:
+        meth = "popleft"
+    x = t = None
+    if meth in ("append", "remove"):
+        x = to_z3(it.force(args[0]), s.elem)
+    if meth == "extend":
+        t = to_z3(it.force(args[0]), T("seq", [s.elem]))
+    if meth == "remove" and opaque:
+        it.ctx.assume(ix(old, x) == z3.IndexOf(old, z3.Unit(x), 0))
+    for cond, f in op_facts(meth, old, s.z, x, t, opaque):
+        if cond == "distinct":
+            d = z3.simplify(distinct_z(old))
+            # when distinctness is literally one of the path's hypotheses the fact itself is added
+            # (available without quantifier reasoning), otherwise the implication
+            f = f if any(d.eq(p) for p in it.ctx.pc) else z3.Implies(distinct_z(old), f)
+        it.ctx.assume(f)
 
 
 # ------------------------------------------------------------------ spec functions
@@ -869,3 +875,69 @@ def inbound_contracts():
         c.qf_feasibility = True
         c.replay = REPLAY
     return cs
+
+
+# ------------------------------------------------------------------ validation of the stated list facts
+def list_facts_task(tier, seed):
+    """every fact of op_facts / first_index_facts, checked against CPython's list semantics on all lists of
+    length <= 3 over three values (and one foreign value): the first-index function is given its concrete
+    table, the fact must then be valid.  Not a proof of the facts for all lengths (they are elementary and
+    listed as trusted); it guards the formulas against slips."""
+    import itertools
+    import time
+    from pyvc.runner import ob
+    t0 = time.time()
+    S = z3.SeqSort(IntS)
+    dom = [0, 1, 2]
+
+    def val(lst):
+        if not lst:
+            return z3.Empty(S)
+        us = [z3.Unit(z3.IntVal(v)) for v in lst]
+        return us[0] if len(us) == 1 else z3.Concat(*us)
+
+    def table(lst):
+        y = z3.Int("y!tb")
+        e = z3.IntVal(-1)
+        for v in reversed(dom + [3]):
+            e = z3.If(y == v, (lst.index(v) if v in lst else -1), e)
+        return z3.ForAll([y], ix(val(lst), y) == e)
+
+    bad, n = [], 0
+    for ln in range(0, 4):
+        for old in itertools.product(dom, repeat=ln):
+            old = list(old)
+            cases = [("append", old + [v], v, None) for v in dom]
+            if old:
+                cases.append(("popleft", old[1:], None, None))
+                cases.append(("rotate", old[1:] + old[:1], None, None))
+                for v in set(old):
+                    k = old.index(v)
+                    cases.append(("remove", old[:k] + old[k + 1:], v, None))
+            else:
+                cases.append(("rotate", [], None, None))
+            cases.append(("clear", [], None, None))
+            for ext in ([], [1], [2, 0]):
+                cases.append(("extend", old + ext, None, ext))
+            for meth, new, x, t in cases:
+                facts = op_facts(meth, val(old), val(new), z3.IntVal(x) if x is not None else None,
+                                 val(t) if t is not None else None, True)
+                facts += [(None, f) for f in first_index_facts(val(old), IntS)]
+                dist = len(set(old)) == len(old)
+                for cond, f in facts:
+                    if cond == "distinct" and not dist:
+                        continue
+                    n += 1
+                    s = z3.Solver()
+                    s.set("timeout", 5000)
+                    s.add(table(old), table(new), z3.Not(f))
+                    r = s.check()
+                    if r != z3.unsat:
+                        bad.append((meth, old, x, t, str(r), str(f)[:120]))
+    name = "props/dilq.py:list-op-facts.valid-on-all-small-lists"
+    o = ob(name, "discharged" if not bad else "failed", "z3", time.time() - t0, False, None,
+           {"kind": "model-validation", "definite": True,
+            "src": f"{n} (operation, list, fact) instances agree with CPython list semantics"},
+           smt_hash="list-op-facts", detail=bad[:5] or None)
+    return {"obligations": [o], "info": {"target": "props/dilq.py:<stated list facts>", "sha": None, "lines": None,
+                                         "paths": n, "wall": round(time.time() - t0, 2)}}
